@@ -652,3 +652,156 @@ class GuardStates:
     def holder(self, bi):
         st = self.pre_term.get(bi) or {}
         return [k for k, v in st.items() if k != "#disc" and v in ("G", "S")]
+
+
+# ---------------------------------------------------------------- functions over a fieldless enum: decision tables
+
+def enum_fn_table(facts, fn, crate, adt_path):
+    """Value of a loop-free `fn(self: Enum) -> bool/int` for every variant of the (fieldless) enum, obtained from
+    its flow-sensitive decision paths (helpers new to the inventory are already inlined).  Works for `match`,
+    `matches!`, `==`/`!=` against a variant, `!`, `usize::from(bool)`, `as`, `+`… whatever the statement shapes.
+    Returns {variant name: value}."""
+    from cfg import decision_paths
+    adt = facts.adt(crate, adt_path)
+    if adt is None:
+        raise Inconclusive("enum %s not found" % adt_path)
+    discr = {v["name"]: v["discr"] for v in adt["variants"]}
+    paths = decision_paths(fn)
+
+    class Unk(Exception):
+        pass
+
+    def ev(e, selfv):
+        k = e[0]
+        if k == "const":
+            if isinstance(e[1], bool):
+                return int(e[1])
+            if isinstance(e[1], int):
+                return e[1]
+            raise Unk("const %r" % (e[1],))
+        if k == "arg" and e[1] == 1:
+            return ("enum", selfv)
+        if k == "agg" and isinstance(e[1], str) and e[1].rsplit("::", 1)[-1] in discr and not e[2]:
+            return ("enum", e[1].rsplit("::", 1)[-1])
+        if k in ("ref", "deref"):
+            return ev(e[1], selfv)
+        if k == "discr":
+            v = ev(e[1], selfv)
+            if isinstance(v, tuple) and v[0] == "enum":
+                return discr[v[1]]
+            raise Unk("discriminant of a non-enum")
+        if k == "un" and e[1] == "Not":
+            v = ev(e[2], selfv)
+            return int(not v)
+        if k == "cast":
+            v = ev(e[2], selfv)
+            if isinstance(v, tuple):
+                return discr[v[1]]
+            return int(v)
+        if k in ("bin", "checked"):
+            a, b = ev(e[2], selfv), ev(e[3], selfv)
+            if isinstance(a, tuple) or isinstance(b, tuple):
+                if e[1] in ("Eq", "Ne") and isinstance(a, tuple) and isinstance(b, tuple):
+                    return int((a == b) == (e[1] == "Eq"))
+                raise Unk("arithmetic on an enum")
+            ops = {"Add": a + b, "Sub": a - b, "Mul": a * b, "Eq": int(a == b), "Ne": int(a != b), "Lt": int(a < b), "Le": int(a <= b),
+                   "Gt": int(a > b), "Ge": int(a >= b), "BitAnd": a & b, "BitOr": a | b, "BitXor": a ^ b}
+            if e[1] in ops:
+                return ops[e[1]]
+            raise Unk("operator %s" % e[1])
+        if k == "call":
+            name = str(e[1])
+            fnname = str(e[3]) if len(e) > 3 else ""
+            if name.endswith("PartialEq>::eq") or name.endswith("PartialEq>::ne") or fnname.endswith("PartialEq::eq") or fnname.endswith("PartialEq::ne") \
+                    or name.endswith("PartialEq::eq") or name.endswith("PartialEq::ne"):
+                a, b = ev(e[2][0], selfv), ev(e[2][1], selfv)
+                is_ne = name.endswith("ne") or (fnname.endswith("ne") and not name.endswith("eq"))
+                return int((a == b) != is_ne)
+            if name.endswith("::from") or name.endswith("::into"):
+                v = ev(e[2][0], selfv)
+                if isinstance(v, int):
+                    return v
+            raise Unk("call of %s" % name)
+        raise Unk("expression %s" % k)
+
+    table = {}
+    for vname in discr:
+        hits = []
+        for conds, res in paths:
+            ok = True
+            for d, chosen, allv in conds:
+                try:
+                    v = ev(d, vname)
+                except Unk as ex:
+                    raise Inconclusive("%s: condition not evaluable over the variants of %s (%s)" % (fn.path, adt_path, ex))
+                if isinstance(v, tuple):
+                    raise Inconclusive("%s: branch on an enum value" % fn.path)
+                if (chosen is not None and v != chosen) or (chosen is None and v in allv):
+                    ok = False
+                    break
+            if ok:
+                hits.append(res)
+        if len(hits) != 1 or hits[0] is None:
+            raise Inconclusive("%s: %d decision paths for variant %s" % (fn.path, len(hits), vname))
+        try:
+            table[vname] = ev(hits[0], vname)
+        except Unk as ex:
+            raise Inconclusive("%s: result not evaluable for variant %s (%s)" % (fn.path, vname, ex))
+    return table
+
+
+# ---------------------------------------------------------------- effect of a Config "writer" on the Config value
+
+def config_effects(fn, struct_substr="config::Config"):
+    """Final value of every field of the Config that `fn` produces (by-value result) or leaves behind (`&mut self`),
+    per decision path, as {field: ('const', n) | ('enum', Variant) | ('unchanged',) | ('other', text)}.
+    Works for field assignments, struct literals with `..base`, `*self = Config {..}`, clone()+update, helpers."""
+    from cfg import decision_paths
+    selfty = fn.b["locals"][1]["ty"] if fn.arg_count >= 1 else ""
+    by_ref = selfty.startswith("&")
+    out = []
+
+    def field_of(e, name, depth=0):
+        if depth > 12 or e is None:
+            return ("other", "?")
+        k = e[0]
+        if k in ("ref", "deref") and not (k == "deref" and e[1][0] == "arg"):
+            return field_of(e[1], name, depth + 1)
+        if k == "deref" and e[1][0] == "arg":
+            return ("unchanged",)
+        if k == "arg":
+            return ("unchanged",)
+        if k == "agg" and struct_substr.rsplit("::", 1)[-1] in str(e[1]):
+            if name in e[2]:
+                return value_of(e[2][name], name, depth + 1)
+            return ("other", "field missing")
+        if k == "upd":
+            if name in e[2]:
+                return value_of(e[2][name], name, depth + 1)
+            return field_of(e[1], name, depth + 1)
+        if k == "call" and (str(e[1]).endswith("Clone>::clone") or str(e[1]).endswith("::clone")):
+            return field_of(e[2][0], name, depth + 1)
+        return ("other", show(e)[:60])
+
+    def value_of(v, name, depth):
+        v = strip_casts(v)
+        if v[0] == "const" and isinstance(v[1], (int, bool)):
+            return ("const", int(v[1]))
+        if v[0] == "agg" and not v[2] and "::" in str(v[1]):
+            return ("enum", str(v[1]).rsplit("::", 1)[1])
+        if v[0] == "field":
+            r = field_of(v[1], v[2], depth + 1)
+            if v[2] == name:
+                return r
+            return ("other", show(v)[:60])
+        return ("other", show(v)[:60])
+
+    paths = decision_paths(fn, with_env=True)
+    for conds, res, env in paths:
+        final = env.get(("mem", 1)) if by_ref else res
+        if final is None:
+            final = ("deref", ("arg", 1, "self")) if by_ref else None
+        if final is None:
+            raise Inconclusive("%s: return path without a Config value" % fn.path)
+        out.append((conds, final, lambda name, final=final: field_of(final, name)))
+    return out
